@@ -123,6 +123,14 @@ def oracle(ctx):
                     fail = f'--expose arguments {got} differ from the accepted values {eff}'
         if fail:
             res.oracle_failures.append(dict(op=op, input=deco, impl_output=core.dec_line(a), oracle_expectation=fail))
+    # the values may come from drop-ins too (resets included): the same history of ExposeHostPort= assignments written in one file, or
+    # with its later part in drop-ins of one or two search directories, is accepted or rejected alike and gives the same --expose options
+    import filespell
+    hist = []
+    for _ in range(90 if ctx.thorough else 30):
+        hv = [rnd.choice(pool_ok + pool_ok + ['', '', 'http', '80/sctp']) for _ in range(rnd.randint(2, 5))]
+        hist.append({'c.container': '[Container]\nImage=localhost/i\n' + ''.join(f'ExposeHostPort={v}\n' for v in hv)})
+    filespell.compare(ctx, hist, ['two', 'two-dirs', 'two-dirs-rev', 'dropin'], 'C20 histories of ExposeHostPort= in drop-ins')
     res.samples.append(dict(kind='oracle-case', values=cases[0][1], impl=core.dec_line(io[0])[:300]))
     ctx.log(f'oracle: {res.oracle_evals} evaluations, {len(res.oracle_failures)} failures')
 
